@@ -48,7 +48,7 @@ class Cfg:
     def __init__(self, naming="distinct", method_form=0.3, members=None, called_lambdas=True, odd_selectors=False,
                  containers=True, ifexp=True, keywords_in_called=True, first=True, lists=True, dict_attr=True,
                  comprehension=False, count_fn=True, first_on_seq=True, genexp=False,
-                 captures=False, helpers=False, record_ctor=False, free_scalar=False, first_of_packages=True, higher_order=False, kwonly_in_called=False, dict_method_keys=False, duplicate_keys=True, seq_of_packages=False):
+                 captures=False, helpers=False, record_ctor=False, free_scalar=False, first_of_packages=True, higher_order=False, kwonly_in_called=False, dict_method_keys=False, duplicate_keys=True, seq_of_packages=False, starred_literals=False):
         self.naming = naming
         self.method_form = method_form
         self.members = members or MEMBERS
@@ -73,6 +73,7 @@ class Cfg:
         self.dict_method_keys = dict_method_keys
         self.duplicate_keys = duplicate_keys
         self.seq_of_packages = seq_of_packages
+        self.starred_literals = starred_literals
         self.free_scalar = free_scalar
 
 
@@ -248,6 +249,19 @@ def _wrappers(cx: Ctx, env, ty, depth, inner_fn):
         pos = cx.int_(0, n - 1)
         tys = [(ty if i == pos else any_type(cx, env, 1)) for i in range(n)]
         kind = cx.pick((["T", "L", "R"] if cfg.lists else ["T", "R"]) + (["D"] if cfg.record_ctor else []))
+        if cfg.starred_literals and kind in ("T", "L") and cx.chance(2):
+            # a starred element in front: which element sits at a position is only known at run time
+            other = gen(cx, env, ty, 0)
+            inner = gen(cx, env, ty, depth - 1)
+            seqlit = cx.pick([f"({other},)", "()", f"({other}, {other})"])
+            idx = {f"({other},)": 1, "()": 0, f"({other}, {other})": 2}[seqlit]
+            lit = f"(*{seqlit}, {inner})" if kind == "T" else f"[*{seqlit}, {inner}]"
+            return f"{lit}[{idx}]"
+        if cfg.starred_literals and kind == "R" and cx.chance(2):
+            # a ** entry after the key may override it
+            inner = gen(cx, env, ty, depth - 1)
+            other = gen(cx, env, ty, 0)
+            return cx.pick([f"{{'f_a': {other}, **{{'f_a': {inner}}}}}['f_a']", f"{{**{{'f_a': {other}}}, 'f_a': {inner}}}['f_a']"])
         if kind == "D":  # field of a record built on the spot with a dataclass / NamedTuple constructor (sugar in any position)
             keys = [f"f_{chr(97 + i)}" for i in range(n)]
             return f"{gen(cx, env, ('D', tuple(zip(keys, tys))), depth - 1)}.{keys[pos]}"
